@@ -247,9 +247,53 @@ example : ∃ out st', Pretty.formatAggregate envW20 {} narrowExample = .ok (out
   exact ⟨out, st', hf, C16_table_lines_ok envW20 {} st' narrowExample 20 5 out rfl (by omega) (by decide)
     narrowExample_narrow (by intro h; cases h) hf⟩
 
+theorem AllPairs.getLast {α β : Type} {R : α → β → Prop} {as : List α} {bs : List β}
+    (h : AllPairs R as bs) : ∀ a, as.getLast? = some a → ∃ b, bs.getLast? = some b ∧ R a b := by
+  induction h with
+  | nil => intro a ha; simp at ha
+  | cons hr hrest ih =>
+    rename_i a0 b0 as0 bs0
+    intro a ha
+    cases hrest with
+    | nil =>
+      simp only [List.getLast?_singleton, Option.some.injEq] at ha
+      subst ha
+      exact ⟨b0, by simp, hr⟩
+    | cons hr2 hrest2 =>
+      rw [List.getLast?_cons_cons] at ha
+      obtain ⟨b, hb, hab⟩ := ih a ha
+      exact ⟨b, by rw [List.getLast?_cons_cons]; exact hb, hab⟩
+
+/-- **C16_narrow_live_screen.**  The render loop composed with the printer and the terminal: for every
+refresh `schedule` (and any operator states), if every table the loop draws is narrow with distinct
+columns, and `outs` are their prints (any printer states), then the blank `w × h` terminal ends up
+showing exactly the lines `last` of the print of the table `t` that the stateless pipeline computes
+from ALL rows (the table a non-terminal run prints). -/
+theorem C16_narrow_live_screen (ext : Ext) (head : AggStage) (rest : List AggStage) (rows : List Record)
+    (schedule : List Nat) (sts sts' : List LiveState) (tables : List Table)
+    (hlive : liveFrames ext head rest rows sts (schedule ++ [rows.length]) = some (sts', tables))
+    (env : Pretty.Env) (w h : Nat) (hterm : env.term = some (w, h)) (h2 : 2 ≤ h)
+    (hok : ∀ t ∈ tables, t.columns.Nodup ∧ NarrowTable t ∧ (t.rows = [] → 7 ≤ w))
+    (outs : List (List Char))
+    (hprint : AllPairs (fun t out => ∃ st st', Pretty.formatAggregate env st t = .ok (out, st')) tables outs) :
+    ∃ s last, screenAfter w h outs = some s ∧ s.rows = expectedRows w h last ∧
+      ∃ st st' t0 t, headStage ext head rows = .ok t0 ∧ runPlan.go ext rest t0 = .ok t ∧
+        tables.getLast? = some t ∧ Pretty.formatAggregate env st t = .ok (frameText last, st') := by
+  obtain ⟨t0, t, h0, hrun, hlast⟩ := C16_final_frame ext head rest rows schedule sts sts' tables hlive
+  have hne : tables ≠ [] := by intro e; rw [e] at hlast; simp at hlast
+  obtain ⟨frames, last, houts, s, hs, hrows⟩ :=
+    C16_narrow_tables_screen env w h hterm h2 tables hne hok outs hprint
+  obtain ⟨o, ho, st, st', hf⟩ := AllPairs.getLast hprint t hlast
+  have : o = frameText last := by
+    rw [houts] at ho
+    simpa using ho.symm
+  subst this
+  exact ⟨s, last, hs, hrows, st, st', t0, t, h0, hrun, hlast, hf⟩
+
 end C16
 end Ag
 
 #print axioms Ag.C16.C16_table_lines_ok
 #print axioms Ag.C16.C16_narrow_tables_screen
 #print axioms Ag.C16.C16_no_data_narrow_counterexample
+#print axioms Ag.C16.C16_narrow_live_screen
